@@ -230,6 +230,8 @@ func (e *Engine) rtCall(name string, args []Value, st *State, depth int, site ss
 			e.maxDepth = v
 		case "merge":
 			e.mergeOn = v != 0
+		case "maporder":
+			e.mapOrderPolicy = v
 		default:
 			e.unsupported("verifrt.SetOpt(%q)", str(0))
 		}
